@@ -376,8 +376,11 @@ class CLexer:
         start = pos
         while pos < n and text[pos] != "\n":
             pos += 1
-        if pos > start:
-            toks.append(self._make_token("PPPRAGMASTR", text[start:pos], start))
+        end = pos
+        while end > start and text[end - 1] in " \t":
+            end -= 1
+        if end > start:
+            toks.append(self._make_token("PPPRAGMASTR", text[start:end], start))
         if pos < n and text[pos] == "\n":
             self._lineno += 1
             pos += 1
